@@ -419,3 +419,541 @@ Section OneFunc.
       apply Hv. unfold col. apply nth_In. rewrite Hlo. exact Hj.
   Qed.
 End OneFunc.
+
+(* ------------------------------------------------------------------ whole pipelines against the denotation *)
+Section Sim.
+  Variable body : mfunc -> env -> result (list val).
+  Hypothesis Harity : body_arity body.
+  Variable user : shape_dict.
+  Variable p : list mfunc.
+  Variable inputs : env.
+  Variable D : den_state.
+  Let c : ctx := {| x_p := p; x_inputs := inputs; x_shapes := d_shapes D |}.
+
+  Hypothesis HD : forall f, In f p -> den_fact body D f.
+  Hypothesis Hfok : forall f, In f p -> func_ok f = true.
+  Hypothesis Huniq : forall g f o, In g p -> In f p -> In o (fouts g) -> In o (fouts f) -> g = f.
+  Hypothesis Hin_disj : forall f o, In f p -> In o (fouts f) -> dict_get inputs o = None.
+  Hypothesis Henv : forall q, (forall f, In f p -> ~ In q (fouts f)) -> dict_get (d_env D) q = dict_get inputs q.
+
+  (* the denoted value of an output *)
+  Definition dval (o : str) : val := match dict_get (d_out D) o with Some v => v | None => VS [] end.
+  Definition den_entries (f : mfunc) : list (str * val) := map (fun o => (o, dval o)) (fouts f).
+
+  (* the store holds, where present, denoted values of f / all of them *)
+  Definition fsub (rs : rstore) (f : mfunc) : Prop :=
+    if is_mapped f then
+      forall kw ms sh mask arrs, func_kwargs f (d_env D) = Ok kw -> fspec f = Some ms -> shape_of c f = Ok (sh, mask) ->
+        denote_mapped body f ms kw sh mask = Ok arrs ->
+        cells_sub body f ms kw sh mask (stores_of rs f (prod (ext_of mask sh)))
+    else forall o, In o (fouts f) -> dict_get (st_val rs) o = None \/ dict_get (st_val rs) o = Some (Ok (dval o)).
+  Definition ffull (rs : rstore) (f : mfunc) : Prop :=
+    if is_mapped f then
+      forall kw ms sh mask arrs, func_kwargs f (d_env D) = Ok kw -> fspec f = Some ms -> shape_of c f = Ok (sh, mask) ->
+        denote_mapped body f ms kw sh mask = Ok arrs ->
+        cells_full body f ms kw sh mask (stores_of rs f (prod (ext_of mask sh)))
+    else forall o, In o (fouts f) -> dict_get (st_val rs) o = Some (Ok (dval o)).
+
+  (* the data of a mapped function *)
+  Lemma mapped_data f : In f p -> is_mapped f = true ->
+    exists kw ms sh mask arrs,
+      func_kwargs f (d_env D) = Ok kw /\ fspec f = Some ms /\ shape_of c f = Ok (sh, mask)
+      /\ denote_mapped body f ms kw sh mask = Ok arrs /\ length arrs = length (fouts f)
+      /\ forallb (fun n => 0 <? n) sh = true /\ length mask = length sh
+      /\ length (ext_of mask sh) = length (external_indices ms)
+      /\ wf_decl ms = true /\ NoDup (map aname (ins ms)) /\ NoDup (output_indices ms) /\ 0 < length (fouts f)
+      /\ (forall j o, nth_error (fouts f) j = Some o -> exists a, nth_error arrs j = Some a /\ dval o = VA a
+                                                                /\ dict_get (d_env D) o = Some (VA a)).
+  Proof.
+    intros Hin Hm. destruct (HD f Hin) as [kw [Hkw H]]. rewrite Hm in H.
+    destruct H as [ms [sh [mask [arrs [A1 [A2 [A3 [A4 [A5 [A6 A7]]]]]]]]]].
+    destruct (func_ok_spec f ms (Hfok f Hin) A1) as [W1 [W2 [W3 W4]]].
+    exists kw, ms, sh, mask, arrs. repeat split; auto.
+    - unfold shape_of. destruct (fouts f) as [|o0 os] eqn:Ef; [cbn in W4; lia|].
+      destruct (A7 0 o0 eq_refl) as [B _]. cbn [x_shapes c]. now rewrite B.
+    - intros j o Hj. destruct (A7 j o Hj) as [_ [a [B1 [B2 B3]]]]. exists a. unfold dval. rewrite B3. auto.
+  Qed.
+
+  Lemma single_data f : In f p -> is_mapped f = false ->
+    exists kw outs, func_kwargs f (d_env D) = Ok kw /\ body f kw = Ok outs /\ length outs = length (fouts f)
+      /\ outs = map dval (fouts f)
+      /\ (forall o, In o (fouts f) -> dict_get (d_env D) o = Some (dval o)).
+  Proof.
+    intros Hin Hm. destruct (HD f Hin) as [kw [Hkw H]]. rewrite Hm in H. destruct H as [outs [B1 [B2 B3]]].
+    exists kw, outs. split; [exact Hkw|]. split; [exact B1|]. split; [exact B2|]. split.
+    - apply (@list_eq_nth val dflt); [now rewrite map_length|]. intros j Hj. rewrite B2 in Hj.
+      destruct (nth_error (fouts f) j) as [o|] eqn:Eo; [|apply nth_error_None in Eo; lia].
+      destruct (B3 j o Eo) as [v [C1 [_ C3]]].
+      rewrite (nth_error_some_nth _ _ dflt _ C1).
+      rewrite (nth_map_default dval (fouts f) j o dflt) by lia. rewrite (nth_error_some_nth _ _ o _ Eo).
+      unfold dval. now rewrite C3.
+    - intros o Ho. apply In_nth_error in Ho as [j Hj]. destruct (B3 j o Hj) as [v [_ [C2 C3]]].
+      unfold dval. now rewrite C3.
+  Qed.
+
+  (* _func_kwargs on a store whose producers are full gives the denotation's arguments *)
+  Lemma kwargs_sel_den rs f : In f p ->
+    (forall q g, In q (fparams f) -> producer p q = Some g -> ffull rs g) ->
+    func_kwargs_sel c rs f = func_kwargs f (d_env D).
+  Proof.
+    intros Hin Hfull. unfold func_kwargs_sel, func_kwargs. apply mapM_ext_in. intros q Hq.
+    unfold lookup_arg_sel, lookup_arg. destruct (dict_get (fbound f) q); [reflexivity|]. cbn [x_inputs c].
+    destruct (dict_get inputs q) as [v|] eqn:Ei.
+    - rewrite Henv, Ei; [reflexivity|]. intros g Hg X. rewrite (Hin_disj g q Hg X) in Ei. discriminate.
+    - cbn [x_p c]. destruct (producer p q) as [g|] eqn:Ep.
+      + destruct (producer_Some _ _ _ Ep) as [Hg Hqo]. specialize (Hfull q g Hq Ep). unfold ffull in Hfull.
+        destruct (is_mapped g) eqn:Em.
+        * destruct (mapped_data g Hg Em) as [kw [ms [sh [mask [arrs [K1 [K2 [K3 [K4 [K5 [P1 [P2 [P3 [W1 [W2 [W3 [W4 Hent]]]]]]]]]]]]]]]]].
+          rewrite K3. cbn [bind fst snd].
+          apply In_nth_error in Hqo as [j Hj]. destruct (Hent j q Hj) as [a [Ha [_ Hde]]]. rewrite Hde.
+          specialize (Hfull kw ms sh mask arrs K1 K2 K3 K4).
+          destruct (stores_of_nth rs g (prod (ext_of mask sh)) j q Hj) as [Hn Hjl].
+          rewrite <- Hn.
+          assert (Hjk : j < length (fouts g)) by (apply nth_error_Some; congruence).
+          rewrite (render_full body Harity g ms kw sh mask W1 W2 W3 W4 P2 P3 P1 arrs K4 _ j Hfull Hjk). cbn [bind].
+          do 2 f_equal. rewrite (denote_mapped_arrays body g ms kw sh mask P2 arrs K4 dflt) in Ha.
+          rewrite nth_error_map in Ha. rewrite nth_error_seq0 in Ha by exact Hjk. cbn [option_map] in Ha. injection Ha as <-. reflexivity.
+        * destruct (single_data g Hg Em) as [_ [_ [_ [_ [_ [_ Hde]]]]]].
+          rewrite (Hfull q Hqo), (Hde q Hqo). reflexivity.
+      + rewrite Henv, Ei; [reflexivity|]. intros g Hg X.
+        unfold producer in Ep. pose proof (find_none _ _ Ep g Hg) as Hf. cbn beta in Hf.
+        apply mem_str_false in Hf. contradiction.
+  Qed.
+
+  Lemma fouts_NoDup f : In f p -> NoDup (fouts f).
+  Proof.
+    intros Hin. pose proof (Hfok f Hin) as Hok. unfold func_ok in Hok.
+    apply andb_true_iff in Hok as [Hok _]. apply andb_true_iff in Hok as [Hok _]. now apply nodup_str_NoDup.
+  Qed.
+
+  Lemma full_sub_cells f ms kw sh mask stores :
+    cells_full body f ms kw sh mask stores -> cells_sub body f ms kw sh mask stores.
+  Proof.
+    intros [A B]. split; [exact A|]. intros j Hj. destruct (B j Hj) as [B1 B2]. split; [exact B1|].
+    intros i Hi. right. now apply B2.
+  Qed.
+
+  (* processing the task of f succeeds from any state and appends the denoted Result.output *)
+  Definition single_effect (f : mfunc) (r : rstore) : rstore :=
+    fold_left (fun r0 ov => set_val r0 (fst ov) (snd ov)) (combine (fouts f) (map dval (fouts f))) r.
+  Definition task_good (t : task) (f : mfunc) : Prop :=
+    forall ps0, exists ps1, process_task ps0 t = ROk ps1
+      /\ p_out ps1 = p_out ps0 ++ den_entries f
+      /\ p_store ps1 = (if is_mapped f then p_store ps0 else single_effect f (p_store ps0)).
+
+  Lemma combine_map_self {A B} (g : A -> B) (l : list A) : combine l (map g l) = map (fun x => (x, g x)) l.
+  Proof. induction l as [|x l IH]; cbn; [reflexivity|]. now rewrite IH. Qed.
+
+  Lemma submit_func_sim ps f :
+    In f p ->
+    (forall g, In g p -> fsub (p_store ps) g) ->
+    (forall q g, In q (fparams f) -> producer p q = Some g -> ffull (p_store ps) g) ->
+    exists ps' t, submit_func body c None ps f = ROk (ps', t)
+      /\ p_out ps' = p_out ps
+      /\ (forall o, ~ In o (fouts f) -> dict_get (st_arr (p_store ps')) o = dict_get (st_arr (p_store ps)) o)
+      /\ st_val (p_store ps') = st_val (p_store ps)
+      /\ (is_mapped f = true -> ffull (p_store ps') f)
+      /\ (is_mapped f = false -> p_store ps' = p_store ps)
+      /\ task_good t f.
+  Proof.
+    intros Hin Hsub Hprod. unfold submit_func.
+    rewrite (kwargs_sel_den (p_store ps) f Hin Hprod).
+    destruct (is_mapped f) eqn:Em.
+    - destruct (mapped_data f Hin Em) as [kw [ms [sh [mask [arrs [K1 [K2 [K3 [K4 [K5 [P1 [P2 [P3 [W1 [W2 [W3 [W4 Hent]]]]]]]]]]]]]]]]].
+      rewrite K1. cbn [lift rbind]. rewrite K2, K3. cbn [lift rbind fst snd].
+      set (N := prod (ext_of mask sh)).
+      pose proof (Hsub f Hin) as Hs. unfold fsub in Hs. rewrite Em in Hs. specialize (Hs kw ms sh mask arrs K1 K2 K3 K4). fold N in Hs.
+      destruct (submit_mapped_den body Harity f ms kw sh mask W1 W2 W3 W4 P2 P3 P1 arrs K4 _ (p_tr ps) Hs) as [st [ex [E1 [E2 [E3 E4]]]]].
+      fold N in E1. rewrite E1. cbn [rbind fst snd].
+      assert (Hlen : length (m_stores st) = length (fouts f)) by (destruct E2 as [A _]; exact A).
+      eexists _, _. split; [reflexivity|]. cbn [p_out p_store p_tr].
+      split; [reflexivity|]. split.
+      { intros o Ho. unfold put_stores. now apply put_stores_arr_other. }
+      split; [unfold put_stores; apply put_stores_val|]. split.
+      { intros _. unfold ffull. rewrite Em. intros kw' ms' sh' mask' arrs' K1' K2' K3' K4'.
+        rewrite K1 in K1'. injection K1' as <-. rewrite K2 in K2'. injection K2' as <-.
+        rewrite K3 in K3'. injection K3' as <- <-. rewrite K4 in K4'. injection K4' as <-.
+        fold N. rewrite (stores_of_put_same (p_store ps) f (m_stores st) N (fouts_NoDup f Hin) Hlen). exact E2. }
+      split; [discriminate|].
+      intros ps0. cbn [process_task].
+      assert (Hpm : process_mapped f sh mask {| m_stores := m_stores st; m_results := m_results st; m_tr := p_tr ps0 |} ex = ROk arrs).
+      { apply (process_mapped_den body Harity f ms kw sh mask W1 W2 W3 W4 P2 P3 P1 arrs K4); cbn [m_stores m_results].
+        - exact E2.
+        - intros i Hi. rewrite E3 in Hi. apply filter_In in Hi as [Hi _]. apply in_seq in Hi. lia.
+        - exists (filter (fun i => miss_any (stores_of (p_store ps) f N) i) (seq 0 N)). split; [exact E4|]. split.
+          + intros i Hi. apply filter_In in Hi as [Hi _]. apply in_seq in Hi. unfold N in Hi. lia.
+          + intros i Hi. apply in_or_app. rewrite E3.
+            destruct (miss_any (stores_of (p_store ps) f N) i) eqn:Emi; [left | right];
+              apply filter_In; (split; [apply in_seq; cbn; lia | now rewrite Emi]). }
+      rewrite Hpm. cbn [rbind]. eexists. split; [reflexivity|]. cbn [p_out p_store]. rewrite Em. split; [|reflexivity].
+      f_equal. unfold den_entries. apply (@list_eq_nth (str * val) (s "", dflt)).
+      + rewrite combine_length, !map_length. lia.
+      + intros j Hj. rewrite combine_length, !map_length in Hj.
+        assert (Hjk : j < length (fouts f)) by lia.
+        destruct (nth_error (fouts f) j) as [o|] eqn:Eo; [|apply nth_error_None in Eo; lia].
+        destruct (Hent j o Eo) as [a [Ha [Hdv _]]].
+        rewrite combine_nth by (rewrite !map_length; lia).
+        rewrite (nth_map_default (fun o0 => (o0, dval o0)) (fouts f) j (s "") (s "", dflt)) by exact Hjk.
+        rewrite (nth_error_some_nth _ _ (s "") _ Eo).
+        rewrite (nth_map_default VA arrs j {| shp := []; dat := [] |} dflt) by lia.
+        rewrite (nth_error_some_nth _ _ {| shp := []; dat := [] |} _ Ha). now rewrite Hdv.
+    - destruct (single_data f Hin Em) as [kw [outs [S1 [S2 [S3 [S4 S5]]]]]].
+      rewrite S1. cbn [lift rbind]. unfold execute_single.
+      assert (Hnoerr : forall o, In o (fouts f) -> dict_get (st_val (p_store ps)) o = None \/ dict_get (st_val (p_store ps)) o = Some (Ok (dval o))).
+      { pose proof (Hsub f Hin) as Hs. unfold fsub in Hs. rewrite Em in Hs. exact Hs. }
+      assert (Hload : load_single (p_store ps) f = Ok None \/ load_single (p_store ps) f = Ok (Some outs)).
+      { unfold load_single. rewrite S4.
+        assert (G : forall l, (forall o, In o l -> dict_get (st_val (p_store ps)) o = None \/ dict_get (st_val (p_store ps)) o = Some (Ok (dval o))) ->
+                  exists lo, mapM (fun o => match dict_get (st_val (p_store ps)) o with
+                                            | Some (Ok v) => Ok (Some v) | Some (Err e) => Err e | None => Ok None end) l = Ok lo
+                             /\ (forallb (fun x => match x with Some _ => true | None => false end) lo = true ->
+                                 flat_map (fun x => match x with Some v => [v] | None => [] end) lo = map dval l)).
+        { induction l as [|o l IH]; intros Hl; cbn.
+          - exists []. split; [reflexivity|]. reflexivity.
+          - destruct (IH (fun o' Ho' => Hl o' (or_intror Ho'))) as [lo [E1 E2]]. rewrite E1.
+            destruct (Hl o (or_introl eq_refl)) as [Hn|Hs]; rewrite ?Hn, ?Hs; cbn.
+            + exists (None :: lo). split; [reflexivity|]. cbn. discriminate.
+            + exists (Some (dval o) :: lo). split; [reflexivity|]. cbn. intros Ha. now rewrite (E2 Ha). }
+        destruct (G (fouts f) Hnoerr) as [lo [E1 E2]]. rewrite E1. cbn [bind].
+        destruct (forallb _ lo) eqn:Ea; [right; now rewrite (E2 eq_refl) | left; reflexivity]. }
+      assert (Hgood : task_good (TSingle f outs) f).
+      { intros ps0. cbn [process_task]. eexists. split; [reflexivity|]. cbn [p_out p_store dump_single fst snd]. rewrite Em.
+        split; [|unfold single_effect; now rewrite S4].
+        f_equal. unfold den_entries. rewrite S4. apply combine_map_self. }
+      destruct Hload as [Hl|Hl]; rewrite Hl; cbn [lift rbind].
+      + rewrite S2. cbn [lift rbind]. rewrite S3, Nat.eqb_refl. cbn [negb rbind fst snd].
+        eexists _, _. split; [reflexivity|]. cbn [p_out p_store]. repeat split; auto. discriminate.
+      + cbn [rbind fst snd]. eexists _, _. split; [reflexivity|]. cbn [p_out p_store]. repeat split; auto. discriminate.
+  Qed.
+
+  (* fsub / ffull look only at the entries of the function's own outputs *)
+  Lemma f_ext r r' g :
+    (forall o, In o (fouts g) -> dict_get (st_arr r) o = dict_get (st_arr r') o /\ dict_get (st_val r) o = dict_get (st_val r') o) ->
+    (fsub r g -> fsub r' g) /\ (ffull r g -> ffull r' g).
+  Proof.
+    intros H. unfold fsub, ffull. destruct (is_mapped g).
+    - assert (E : forall n, stores_of r g n = stores_of r' g n) by (intros n; apply stores_of_ext; intros o Ho; apply H; exact Ho).
+      split; intros X kw ms sh mask arrs A1 A2 A3 A4; rewrite <- E; now apply (X kw ms sh mask arrs).
+    - split; intros X o Ho; rewrite <- (proj2 (H o Ho)); now apply X.
+  Qed.
+
+  Lemma ffull_fsub r g : In g p -> ffull r g -> fsub r g.
+  Proof.
+    intros Hg. unfold ffull, fsub. destruct (is_mapped g).
+    - intros X kw ms sh mask arrs A1 A2 A3 A4. apply full_sub_cells. now apply (X kw ms sh mask arrs).
+    - intros X o Ho. right. now apply X.
+  Qed.
+
+  Definition shares (g f : mfunc) : bool := existsb (fun o => mem_str o (fouts f)) (fouts g).
+  Lemma shares_eq g f : In g p -> In f p -> shares g f = true -> g = f.
+  Proof.
+    intros Hg Hf H. apply existsb_exists in H as [o [Ho Hof]]. apply mem_str_In in Hof. eapply Huniq; eauto.
+  Qed.
+  Lemma shares_false g f o : shares g f = false -> In o (fouts g) -> ~ In o (fouts f).
+  Proof.
+    intros H Ho X. assert (T : shares g f = true) by (apply existsb_exists; exists o; split; [exact Ho | now apply mem_str_In]).
+    rewrite T in H. discriminate.
+  Qed.
+
+  (* the store invariants across the submit of f *)
+  Lemma submit_effect r r' f :
+    In f p ->
+    (forall o, ~ In o (fouts f) -> dict_get (st_arr r') o = dict_get (st_arr r) o) ->
+    st_val r' = st_val r ->
+    (is_mapped f = true -> ffull r' f) -> (is_mapped f = false -> r' = r) ->
+    (forall g, In g p -> fsub r g) ->
+    (forall g, In g p -> fsub r' g) /\ (forall g, In g p -> ffull r g -> ffull r' g).
+  Proof.
+    intros Hf Harr Hval Hm Hu Hsub.
+    assert (Hoth : forall g, In g p -> shares g f = false ->
+               forall o, In o (fouts g) -> dict_get (st_arr r) o = dict_get (st_arr r') o /\ dict_get (st_val r) o = dict_get (st_val r') o).
+    { intros g Hg Hs o Ho. split; [symmetry; apply Harr; eapply shares_false; eauto | now rewrite Hval]. }
+    split.
+    - intros g Hg. destruct (shares g f) eqn:Es.
+      + apply (shares_eq g f Hg Hf) in Es. subst g. destruct (is_mapped f) eqn:Em.
+        * apply ffull_fsub; [exact Hf | now apply Hm].
+        * rewrite (Hu eq_refl). now apply Hsub.
+      + apply (proj1 (f_ext r r' g (Hoth g Hg Es))). now apply Hsub.
+    - intros g Hg Hfull. destruct (shares g f) eqn:Es.
+      + apply (shares_eq g f Hg Hf) in Es. subst g. destruct (is_mapped f) eqn:Em; [now apply Hm | now rewrite (Hu eq_refl)].
+      + now apply (proj2 (f_ext r r' g (Hoth g Hg Es))).
+  Qed.
+
+  (* ... and across the processing of its task *)
+  Lemma process_effect r f :
+    In f p -> (forall g, In g p -> fsub r g) ->
+    let r' := if is_mapped f then r else single_effect f r in
+    (forall g, In g p -> fsub r' g) /\ (forall g, In g p -> ffull r g -> ffull r' g)
+    /\ (is_mapped f = false -> ffull r' f).
+  Proof.
+    intros Hf Hsub. destruct (is_mapped f) eqn:Em; cbn zeta.
+    - split; [exact Hsub|]. split; [auto | discriminate].
+    - assert (Harr : st_arr (single_effect f r) = st_arr r) by apply set_val_arr.
+      assert (Hnew : ffull (single_effect f r) f).
+      { unfold ffull. rewrite Em. intros o Ho. apply In_nth_error in Ho as [j Hj].
+        pose proof (set_val_fold_get r (fouts f) (map dval (fouts f)) (fouts_NoDup f Hf) (map_length _ _)) as HF.
+        fold (single_effect f r) in HF.
+        assert (G : forall (l : list str) (vs : list val) (P : str -> val -> Prop), Forall2 P l vs ->
+                    forall j o, nth_error l j = Some o -> exists v, nth_error vs j = Some v /\ P o v).
+        { induction 1 as [|a b l' vs' H1 _ IH]; intros [|j'] o' Hn; cbn in Hn; try discriminate.
+          - injection Hn as <-. exists b. auto.
+          - now apply IH. }
+        destruct (G _ _ _ HF j o Hj) as [v [Hv Hp]]. rewrite nth_error_map, Hj in Hv. cbn in Hv. injection Hv as <-. exact Hp. }
+      assert (Hoth : forall g, In g p -> shares g f = false ->
+                 forall o, In o (fouts g) -> dict_get (st_arr r) o = dict_get (st_arr (single_effect f r)) o
+                                             /\ dict_get (st_val r) o = dict_get (st_val (single_effect f r)) o).
+      { intros g Hg Hs o Ho. split; [now rewrite Harr|]. symmetry. apply set_val_other. eapply shares_false; eauto. }
+      split; [|split; [|intros _; exact Hnew]].
+      + intros g Hg. destruct (shares g f) eqn:Es.
+        * apply (shares_eq g f Hg Hf) in Es. subst g. now apply ffull_fsub.
+        * apply (proj1 (f_ext r _ g (Hoth g Hg Es))). now apply Hsub.
+      + intros g Hg Hfull. destruct (shares g f) eqn:Es.
+        * apply (shares_eq g f Hg Hf) in Es. subst g. exact Hnew.
+        * now apply (proj2 (f_ext r _ g (Hoth g Hg Es))).
+  Qed.
+
+  (* all functions of a generation are submitted *)
+  Lemma submit_fold_sim gen : forall ps tasks,
+    (forall f, In f gen -> In f p) ->
+    (forall g, In g p -> fsub (p_store ps) g) ->
+    (forall f q g, In f gen -> In q (fparams f) -> producer p q = Some g -> ffull (p_store ps) g) ->
+    exists ps' new,
+      fold_left (fun acc f => rdo pt <- acc; rdo r <- submit_func body c None (fst pt) f; ROk (fst r, snd pt ++ [snd r]))
+                gen (ROk (ps, tasks)) = ROk (ps', tasks ++ new)
+      /\ p_out ps' = p_out ps /\ Forall2 task_good new gen
+      /\ (forall g, In g p -> fsub (p_store ps') g)
+      /\ (forall g, In g p -> ffull (p_store ps) g -> ffull (p_store ps') g)
+      /\ (forall f, In f gen -> is_mapped f = true -> ffull (p_store ps') f).
+  Proof.
+    induction gen as [|f gen IH]; intros ps tasks Hgen Hsub Hprod.
+    - exists ps, []. rewrite app_nil_r. cbn. repeat split; auto. intros f [].
+    - destruct (submit_func_sim ps f (Hgen f (or_introl eq_refl)) Hsub (fun q g Hq Hp => Hprod f q g (or_introl eq_refl) Hq Hp))
+        as [ps1 [t [E1 [E2 [E3 [E4 [E5 [E6 E7]]]]]]]].
+      destruct (submit_effect (p_store ps) (p_store ps1) f (Hgen f (or_introl eq_refl)) E3 E4 E5 E6 Hsub) as [S1 S2].
+      destruct (IH ps1 (tasks ++ [t])) as [ps' [new [F1 [F2 [F3 [F4 [F5 F6]]]]]]].
+      + intros g Hg. apply Hgen. right. exact Hg.
+      + exact S1.
+      + intros g q h Hg Hq Hp. destruct (producer_Some _ _ _ Hp) as [Hh _]. apply S2; [exact Hh|]. eapply Hprod; eauto. right. exact Hg.
+      + exists ps', (t :: new). cbn [fold_left rbind fst snd]. rewrite E1. cbn [rbind fst snd].
+        rewrite <- app_assoc in F1. cbn [app] in F1. split; [exact F1|]. split; [congruence|].
+        split; [constructor; assumption|]. split; [exact F4|]. split.
+        * intros g Hg Hfull. apply F5; [exact Hg|]. now apply S2.
+        * intros g [<-|Hg] Hm; [|now apply F6]. apply F5; [apply Hgen; left; reflexivity|]. now apply E5.
+  Qed.
+
+  (* ... and their tasks processed *)
+  Lemma process_fold_sim tasks : forall gen ps,
+    Forall2 task_good tasks gen -> (forall f, In f gen -> In f p) ->
+    (forall g, In g p -> fsub (p_store ps) g) ->
+    exists ps', fold_left (fun acc t => rdo ps0 <- acc; process_task ps0 t) tasks (ROk ps) = ROk ps'
+      /\ p_out ps' = p_out ps ++ flat_map den_entries gen
+      /\ (forall g, In g p -> fsub (p_store ps') g)
+      /\ (forall g, In g p -> ffull (p_store ps) g -> ffull (p_store ps') g)
+      /\ (forall f, In f gen -> is_mapped f = false -> ffull (p_store ps') f).
+  Proof.
+    induction tasks as [|t tasks IH]; intros gen ps HF Hgen Hsub; inversion HF as [|? f ? gen' Hg1 Hg2]; subst.
+    - exists ps. cbn. rewrite app_nil_r. repeat split; auto. intros f [].
+    - destruct (Hg1 ps) as [ps1 [E1 [E2 E3]]].
+      destruct (process_effect (p_store ps) f (Hgen f (or_introl eq_refl)) Hsub) as [S1 [S2 S3]].
+      rewrite <- E3 in S1, S2, S3.
+      destruct (IH gen' ps1 Hg2 (fun g Hg => Hgen g (or_intror Hg)) S1) as [ps' [F1 [F2 [F3 [F4 F5]]]]].
+      exists ps'. cbn [fold_left rbind]. rewrite E1. split; [exact F1|]. split.
+      + rewrite F2, E2. cbn [flat_map]. now rewrite app_assoc.
+      + split; [exact F3|]. split.
+        * intros g Hg Hfull. apply F4; [exact Hg|]. now apply S2.
+        * intros g [<-|Hg] Hm; [|now apply F5]. apply F4; [apply Hgen; left; reflexivity|]. now apply S3.
+  Qed.
+
+  Lemma run_generation_sim ps gen :
+    (forall f, In f gen -> In f p) ->
+    (forall g, In g p -> fsub (p_store ps) g) ->
+    (forall f q g, In f gen -> In q (fparams f) -> producer p q = Some g -> ffull (p_store ps) g) ->
+    exists ps', run_generation body c None ps gen = ROk ps'
+      /\ p_out ps' = p_out ps ++ flat_map den_entries gen
+      /\ (forall g, In g p -> fsub (p_store ps') g)
+      /\ (forall g, In g p -> ffull (p_store ps) g -> ffull (p_store ps') g)
+      /\ (forall f, In f gen -> ffull (p_store ps') f).
+  Proof.
+    intros Hgen Hsub Hprod. unfold run_generation.
+    destruct (submit_fold_sim gen ps [] Hgen Hsub Hprod) as [ps1 [new [F1 [F2 [F3 [F4 [F5 F6]]]]]]].
+    cbn [app] in F1. rewrite F1. cbn [rbind fst snd].
+    destruct (process_fold_sim new gen ps1 F3 Hgen F4) as [ps' [G1 [G2 [G3 [G4 G5]]]]].
+    exists ps'. split; [exact G1|]. split; [now rewrite G2, F2|]. split; [exact G3|]. split.
+    - intros g Hg Hfull. apply G4; [exact Hg|]. now apply F5.
+    - intros f Hf. destruct (is_mapped f) eqn:Em; [|now apply G5].
+      apply G4; [now apply Hgen|]. now apply F6.
+  Qed.
+
+  (* producers of the parameters of a generation are in earlier generations *)
+  Fixpoint producers_before (before : list mfunc) (gens : list (list mfunc)) : Prop :=
+    match gens with
+    | [] => True
+    | gen :: rest => (forall f q g, In f gen -> In q (fparams f) -> producer p q = Some g -> In g before)
+                     /\ producers_before (before ++ gen) rest
+    end.
+
+  Lemma generations_sim gens : forall before ps,
+    (forall gen f, In gen gens -> In f gen -> In f p) ->
+    (forall g, In g p -> fsub (p_store ps) g) ->
+    (forall g, In g before -> ffull (p_store ps) g) -> (forall g, In g before -> In g p) ->
+    producers_before before gens ->
+    exists ps', fold_left (fun acc gen => rdo ps0 <- acc; run_generation body c None ps0 gen) gens (ROk ps) = ROk ps'
+      /\ p_out ps' = p_out ps ++ flat_map den_entries (concat gens)
+      /\ (forall g, In g (before ++ concat gens) -> ffull (p_store ps') g).
+  Proof.
+    induction gens as [|gen rest IH]; intros before ps Hin Hsub Hfull Hbp Hpb.
+    - exists ps. cbn. rewrite !app_nil_r. auto.
+    - destruct Hpb as [P1 P2].
+      destruct (run_generation_sim ps gen (fun f Hf => Hin gen f (or_introl eq_refl) Hf) Hsub) as [ps1 [E1 [E2 [E3 [E4 E5]]]]].
+      { intros f q g Hf Hq Hp. apply Hfull. eapply P1; eauto. }
+      destruct (IH (before ++ gen) ps1) as [ps' [F1 [F2 F3]]].
+      + intros g f Hg Hf. apply (Hin g f (or_intror Hg) Hf).
+      + exact E3.
+      + intros g Hg. apply in_app_or in Hg as [Hg|Hg]; [apply E4; [now apply Hbp | now apply Hfull] | now apply E5].
+      + intros g Hg. apply in_app_or in Hg as [Hg|Hg]; [now apply Hbp | apply (Hin gen g (or_introl eq_refl) Hg)].
+      + exact P2.
+      + exists ps'. cbn [fold_left rbind concat]. rewrite E1. split; [exact F1|]. split.
+        * rewrite F2, E2, flat_map_app, app_assoc. reflexivity.
+        * intros g Hg. apply F3. now rewrite <- app_assoc.
+  Qed.
+End Sim.
+
+(* ------------------------------------------------------------------ assembling *)
+Lemma denote_fold_env body user p : forall d dfin,
+  forallb func_ok p = true ->
+  fold_left (fun acc f => do s <- acc; denote_func body user s f) p (Ok d) = Ok dfin ->
+  (forall q, ~ In q (flat_map fouts p) -> dict_get (d_env dfin) q = dict_get (d_env d) q)
+  /\ fold_left (fun acc f => do shapes <- acc; do shm <- func_shape user shapes f;
+                             Ok (match shm with Some sm => map (fun o => (o, sm)) (fouts f) ++ shapes | None => shapes end))
+               p (Ok (d_shapes d)) = Ok (d_shapes dfin).
+Proof.
+  induction p as [|f p IH]; intros d dfin Hok H; cbn [fold_left bind] in H |- *.
+  - injection H as <-. auto.
+  - cbn [forallb] in Hok. apply andb_true_iff in Hok as [Hf Hp].
+    destruct (denote_func body user d f) as [d1|e] eqn:E1; [|rewrite fold_left_bind_err in H; discriminate].
+    destruct (IH d1 dfin Hp H) as [I1 I2].
+    destruct (denote_func_inv body user d f d1 Hf E1) as [kw [vals [shp' [_ [_ [He _]]]]]].
+    split.
+    + intros q Hq. cbn [flat_map] in Hq. rewrite I1 by (intros X; apply Hq, in_or_app; right; exact X).
+      rewrite He, dget_app, dget_notin; [reflexivity|]. intros X. apply combine_fst_incl in X. apply Hq, in_or_app. left. exact X.
+    + unfold denote_func in E1.
+      destruct (func_shape user (d_shapes d) f) as [shm|e] eqn:Hs; cbn [bind] in E1 |- *; [|discriminate].
+      assert (Hsh : d_shapes d1 = match shm with Some sm => map (fun o => (o, sm)) (fouts f) ++ d_shapes d | None => d_shapes d end).
+      { destruct (func_kwargs f (d_env d)) as [kw0|]; cbn [bind] in E1; [|discriminate].
+        destruct (is_mapped f).
+        - destruct (fspec f); [|discriminate]. destruct shm as [[sh mask]|]; [|discriminate].
+          destruct (negb _); [discriminate|]. destruct (denote_mapped _ _ _ _ _ _); cbn [bind] in E1; [|discriminate].
+          now injection E1 as <-.
+        - destruct (body f kw0); cbn [bind] in E1; [|discriminate]. destruct (negb _); [discriminate|].
+          match type of E1 with (if ?c then _ else _) = _ => destruct c end; [discriminate|]. now injection E1 as <-. }
+      rewrite <- I2. apply f_equal. apply f_equal. symmetry. exact Hsh.
+Qed.
+
+Lemma NoDup_flat_uniq (p : list mfunc) : NoDup (flat_map fouts p) ->
+  forall g f o, In g p -> In f p -> In o (fouts g) -> In o (fouts f) -> g = f.
+Proof.
+  induction p as [|h p IH]; intros Hnd g f o Hg Hf Hog Hof; [destruct Hg|]. cbn in Hnd.
+  destruct (NoDup_app_inv _ _ Hnd) as [_ [Hndp Hdis]].
+  destruct Hg as [<-|Hg], Hf as [<-|Hf]; auto.
+  - exfalso. apply (Hdis o Hog). apply in_flat_map. exists f. auto.
+  - exfalso. apply (Hdis o Hof). apply in_flat_map. exists g. auto.
+  - eapply IH; eauto.
+Qed.
+
+Lemma dget_flat_entries (g : mfunc -> list (str * val)) (L : list mfunc) :
+  (forall f, map fst (g f) = fouts f) -> NoDup (flat_map fouts L) ->
+  forall f o, In f L -> In o (fouts f) -> dict_get (flat_map g L) o = dict_get (g f) o.
+Proof.
+  intros Hg. induction L as [|h L IH]; intros Hnd f o Hf Ho; [destruct Hf|]. cbn in Hnd |- *.
+  destruct (NoDup_app_inv _ _ Hnd) as [_ [HndL Hdis]]. rewrite dget_app.
+  destruct Hf as [<-|Hf].
+  - destruct (dict_get (g h) o) eqn:E; [reflexivity|].
+    apply dget_notin. intros X. rewrite map_flat_map in X.
+    apply in_flat_map in X as [f' [Hf' X]]. rewrite Hg in X. apply (Hdis o Ho). apply in_flat_map. eauto.
+  - rewrite (dget_notin (g h) o); [now apply IH|]. rewrite Hg. intros X. apply (Hdis o X). apply in_flat_map. eauto.
+Qed.
+
+(* MAIN: a full run on any sub-store of the denoted store completes, returns the denoted arrays and ends with the
+   denoted store; the hypotheses are C01's (request_ok, defined denotation, body_arity) plus the order conditions
+   that pipefunc's topological generations satisfy *)
+Theorem run_from_substore_denotes body user p inputs D rs :
+  body_arity body ->
+  request_ok p inputs = true -> denote_run body p inputs user = Ok D ->
+  topo_list p -> producers_before p [] (generations p) ->
+  (forall f, In f p -> In f (concat (generations p))) ->
+  NoDup (flat_map fouts (concat (generations p))) ->
+  (forall g, In g p -> fsub body p inputs D rs g) ->
+  exists ps, map_run_sel body p inputs user None rs = ROk ps
+    /\ (forall f, In f p -> ffull body p inputs D (p_store ps) f)
+    /\ (forall f o, In f p -> In o (fouts f) -> dict_get (p_out ps) o = dict_get (d_out D) o).
+Proof.
+  intros Harity Hreq Hden Htopo Hpb Hall Hndg Hsub.
+  unfold request_ok in Hreq. apply andb_true_iff in Hreq as [Hreq _]. apply andb_true_iff in Hreq as [Hok Hnd].
+  apply nodup_str_NoDup in Hnd. destruct (NoDup_app_inv _ _ Hnd) as [Hndo [_ Hdisj]].
+  unfold denote_run in Hden.
+  set (d0 := {| d_env := inputs; d_shapes := init_shapes inputs; d_out := [] |}) in *.
+  destruct (denote_fold_facts body user p d0 D Hok Htopo) as [HD _]; [intros; reflexivity | exact Hndo | exact Hden|].
+  destruct (denote_fold_env body user p d0 D Hok Hden) as [Henv Hshapes]. cbn [d_env d_shapes d0] in Henv, Hshapes.
+  assert (Hfok : forall f, In f p -> func_ok f = true) by (rewrite forallb_forall in Hok; exact Hok).
+  assert (Huniq := NoDup_flat_uniq p Hndo).
+  assert (Hin_disj : forall f o, In f p -> In o (fouts f) -> dict_get inputs o = None).
+  { intros f o Hf Ho. apply dget_notin. apply Hdisj. apply in_flat_map. eauto. }
+  assert (Henv' : forall q, (forall f, In f p -> ~ In q (fouts f)) -> dict_get (d_env D) q = dict_get inputs q).
+  { intros q Hq. apply Henv. intros X. apply in_flat_map in X as [f [Hf X]]. exact (Hq f Hf X). }
+  unfold map_run_sel. cbn [validate_fixed lift rbind]. unfold all_shapes. rewrite Hshapes. cbn [lift rbind].
+  destruct (generations_sim body Harity p inputs D HD Hfok Huniq Hin_disj Henv' (generations p) []
+              {| p_store := rs; p_out := []; p_tr := [] |}) as [ps [E1 [E2 E3]]].
+  - intros gen f Hg Hf. eapply generations_In; eauto.
+  - exact Hsub.
+  - intros g [].
+  - intros g [].
+  - exact Hpb.
+  - exists ps. split; [exact E1|]. cbn [app p_out] in E2, E3. split; [intros f Hf; apply E3; now apply Hall|].
+    intros f o Hf Ho. rewrite E2.
+    rewrite (dget_flat_entries (den_entries D) (concat (generations p))) with (f := f);
+      [ | intros h; unfold den_entries; rewrite map_map; cbn; apply map_id | exact Hndg | now apply Hall | exact Ho].
+    (* the denoted entry *)
+    unfold den_entries. apply In_nth_error in Ho as [j Hj].
+    assert (E : dict_get (map (fun o0 => (o0, dval D o0)) (fouts f)) o = Some (dval D o)).
+    { clear - Hj. revert j Hj. induction (fouts f) as [|x l IH]; intros [|j] Hj; cbn in *; try discriminate.
+      - injection Hj as ->. now rewrite str_eqb_refl.
+      - destruct (str_eqb o x) eqn:Ex; [apply str_eqb_eq in Ex; now subst | eapply IH; eauto]. }
+    rewrite E. destruct (HD f Hf) as [kw [_ H]]. unfold dval. destruct (is_mapped f).
+    + destruct H as [ms [sh [mask [arrs [_ [_ [_ [_ [_ [_ A7]]]]]]]]]]. destruct (A7 j o Hj) as [_ [a [_ [_ B]]]]. now rewrite B.
+    + destruct H as [outs [_ [_ A3]]]. destruct (A3 j o Hj) as [v [_ [_ B]]]. now rewrite B.
+Qed.
+
+(* the empty store is a sub-store of anything *)
+Lemma fsub_empty body p inputs D g : fsub body p inputs D empty_store g.
+Proof.
+  unfold fsub. destruct (is_mapped g).
+  - intros kw ms sh mask arrs _ _ _ _. unfold cells_sub, stores_of. rewrite map_length. split; [reflexivity|].
+    intros j Hj. destruct (nth_error (fouts g) j) as [o|] eqn:Eo; [|apply nth_error_None in Eo; lia].
+    destruct (stores_of_nth empty_store g (prod (ext_of mask sh)) j o Eo) as [Hn _].
+    unfold stores_of in Hn. rewrite Hn. unfold get_arr. cbn.
+    split; [apply repeat_length|]. intros i Hi. left. apply nth_repeat.
+  - intros o _. left. reflexivity.
+Qed.
+
+(* LINK LEMMA: on the empty store and without a request the model of this file and C01's model of Pipeline.map both
+   succeed and return the same Result.output for every output (namely the denoted arrays) *)
+Theorem map_run_sel_empty_is_map_run body user p inputs D :
+  body_arity body ->
+  request_ok p inputs = true -> denote_run body p inputs user = Ok D ->
+  topo_list p -> producers_before p [] (generations p) ->
+  (forall f, In f p -> In f (concat (generations p))) ->
+  NoDup (flat_map fouts (concat (generations p))) ->
+  exists st ps,
+    map_run body p inputs user = Ok st
+    /\ map_run_sel body p inputs user None empty_store = ROk ps
+    /\ map (fun x => (fst (fst x), snd (fst x))) (r_out st) = d_out D
+    /\ map (fun x => (fst (fst x), snd x)) (r_out st) = d_out D
+    /\ (forall f o, In f p -> In o (fouts f) -> dict_get (p_out ps) o = dict_get (d_out D) o)
+    /\ (forall f, In f p -> ffull body p inputs D (p_store ps) f).
+Proof.
+  intros Harity Hreq Hden Htopo Hpb Hall Hndg.
+  destruct (map_run_denotes body Harity user p inputs D Hreq Hden) as [st [R1 [R2 R3]]].
+  destruct (run_from_substore_denotes body user p inputs D empty_store Harity Hreq Hden Htopo Hpb Hall Hndg
+              (fun g _ => fsub_empty body p inputs D g)) as [ps [S1 [S2 S3]]].
+  exists st, ps. auto 10.
+Qed.
